@@ -83,7 +83,9 @@ impl Parser {
                         Spacing::Joint => Ok(Value::Symbol(self.parse_identifier(c.to_string()))),
                         Spacing::Alone => match c {
                             '-' => match self.peek() {
-                                Some(TokenTree::Literal(lit)) => {
+                                // Only a numeric literal can be negated; in front
+                                // of a string or character, `-` is a symbol.
+                                Some(TokenTree::Literal(lit)) if is_numeric_literal(lit) => {
                                     let lit = lit.clone();
                                     self.eat_token();
                                     Ok(Value::Negated(lit))
@@ -91,7 +93,9 @@ impl Parser {
                                 _ => Ok(Value::Symbol(c.to_string())),
                             },
                             ':' => match self.peek() {
-                                Some(TokenTree::Literal(lit)) => {
+                                // Only a string can name a keyword; in front of
+                                // any other literal, `:` is a symbol.
+                                Some(TokenTree::Literal(lit)) if is_string_literal(lit) => {
                                     let name = string_literal(lit)?;
                                     self.eat_token();
                                     Ok(Value::Keyword(name))
@@ -183,6 +187,14 @@ impl Parser {
     }
 }
 
+fn is_numeric_literal(lit: &Literal) -> bool {
+    lit.to_string().starts_with(|c: char| c.is_ascii_digit())
+}
+
+fn is_string_literal(lit: &Literal) -> bool {
+    lit.to_string().starts_with('"')
+}
+
 fn string_literal(lit: &Literal) -> Result<String, ParseError> {
     let s = lit.to_string();
     if s.starts_with('"') {
@@ -198,7 +210,9 @@ fn parse_list(tokens: TokenStream) -> Result<Value, ParseError> {
     let mut parser = Parser::new(tokens.into_iter().collect());
     while let Some(token) = parser.peek() {
         if let TokenTree::Punct(punct) = token {
-            if punct.as_char() == '.' {
+            // A dot that is joined to more punctuation is the beginning of a
+            // symbol such as `...`, not the dot of a dotted list.
+            if punct.as_char() == '.' && punct.spacing() == Spacing::Alone {
                 if tail.is_some() {
                     return Err(ParseError::UnexpectedChar('.'));
                 }
